@@ -116,6 +116,18 @@ CLAIMS = {
         technique="constant evaluation of the builder's arithmetic over a finite configuration table, table agreement by "
                   "reachability under fixed discriminants, must-fact dominance, plus the C07 bit-provenance obligations",
         design="5 C08"),
+    "C10": dict(
+        text="Clause-level structural decision: every path through dns_encode (all seven answer types, queries with and without "
+             "EDNS0), dns_encode_ns_response and dns_encode_a_response is abstracted into a token string with symbolic offsets "
+             "and parsed against the RFC 1035 grammar (HEADER QUESTION RR*, class IN, OPT shape); every RDLENGTH is a literal equal "
+             "to the bytes that follow, the length of the data token written, or a reserved slot back-patched exactly once with "
+             "cursor - slot - 2; ancount/arcount equal the records emitted (MX/SRV loop unrolled to three records); owner names are "
+             "compression pointers to offsets where a name starts; id, question name and type come from the query being answered; "
+             "every fixed-size write is covered by a dominating length check and variable-size writers get a capacity that cannot "
+             "have wrapped; datagrams are sent from the buffer the encoder filled and headers are never patched outside the "
+             "builders. Not decided: bytes inside names, and session-level behaviour.",
+        technique="symbolic path enumeration with bounded loop unrolling, token-grammar parsing, linear path constraints",
+        design="5 C10"),
 }
 
 NA = {
